@@ -152,6 +152,9 @@ def _one(args):
             return (m.name, "analysis-error", f"{type(e).__name__}: {e}")
         descs = [f"{o.rule}/{o.clause} {o.construct}" for o in v]
         if m.twin:
+            if m.name.startswith("repaired:") and k:
+                # a scratch copy in which a known finding is repaired: the finding itself must be gone as well
+                return (m.name, "twin-fired", "known finding still reported: " + "; ".join(o.construct for o in k[:2]))
             return (m.name, "ok" if not v else "twin-fired", "; ".join(descs[:3]))
         hit = [d for d in descs if m.expect in d]
         if hit:
